@@ -1,0 +1,130 @@
+//go:build verif
+
+// Verification hooks for the prefork master (build tag `verif` only).
+//
+// A test/harness binary attaches a VerifDriver to a ZnPMServer. While a driver is
+// attached
+//   - spawnProcess does not exec a worker: it asks the driver for a (fake) pid — the
+//     driver may block as long as it likes, which is how slow start-ups are scripted —
+//     and then registers that pid on addChan exactly as the real code does;
+//   - maintainChildState reports a snapshot of its counters every time it returns to
+//     its select, i.e. after every handled event.
+//
+// Servers without a driver behave exactly as without the tag.
+package server
+
+import (
+	"runtime"
+	"strings"
+	"sync"
+)
+
+// VerifSnapshot is the master's bookkeeping as seen by the event loop itself.
+type VerifSnapshot struct {
+	RefCount int
+	Childs   map[int]uint8 // pid -> state byte
+}
+
+// VerifDriver scripts the environment of one master.
+type VerifDriver struct {
+	// OnSpawn is called from spawnProcess (in the goroutine that spawns). origin is
+	// "init" (StartMaster's initial loop), "update" (batch launched by a state report),
+	// "del" (top-up launched by a child exit) or "other"; gid identifies the calling
+	// goroutine. It returns the pid to register; a non-nil error makes spawnProcess fail.
+	OnSpawn func(origin string, gid string, pipeID string) (int, error)
+	// OnTick is called by the event loop goroutine each time it is about to select.
+	OnTick func(s VerifSnapshot)
+}
+
+var verifDrivers sync.Map // *ZnPMServer -> *VerifDriver
+
+// VerifAttach installs d for zns (call before StartMaster).
+func (zns *ZnPMServer) VerifAttach(d *VerifDriver) { verifDrivers.Store(zns, d) }
+
+// VerifDetach removes the driver.
+func (zns *ZnPMServer) VerifDetach() { verifDrivers.Delete(zns) }
+
+func (zns *ZnPMServer) verifDriver() *VerifDriver {
+	if d, ok := verifDrivers.Load(zns); ok {
+		return d.(*VerifDriver)
+	}
+	return nil
+}
+
+// VerifSendUpdate delivers a state report the way readNamedPipe does.
+func (zns *ZnPMServer) VerifSendUpdate(pid int, state uint8) {
+	zns.updateChan <- workerState{pid: pid, state: state, cmd: nil}
+}
+
+// VerifSendDel delivers a child-exit notice the way spawnProcess' Wait goroutine does.
+func (zns *ZnPMServer) VerifSendDel(pid int) { zns.delChan <- pid }
+
+// VerifRunLoop runs the real event loop (blocks for ever).
+func (zns *ZnPMServer) VerifRunLoop(cfg ZnPMServerConfig) { zns.maintainChildState(cfg, nil, nil) }
+
+// VerifSpawnProcess calls the real spawnProcess (listener and pipe are unused while a driver is attached).
+func (zns *ZnPMServer) VerifSpawnProcess(cfg ZnPMServerConfig) error {
+	return zns.spawnProcess(cfg, nil, nil)
+}
+
+func (zns *ZnPMServer) verifTick() {
+	d := zns.verifDriver()
+	if d == nil || d.OnTick == nil {
+		return
+	}
+	s := VerifSnapshot{RefCount: zns.refCount, Childs: make(map[int]uint8, len(zns.childs))}
+	for pid, w := range zns.childs {
+		s.Childs[pid] = w.state
+	}
+	d.OnTick(s)
+}
+
+// verifSpawn replaces the exec part of spawnProcess while a driver is attached.
+func (zns *ZnPMServer) verifSpawn(p *pipe) (bool, error) {
+	d := zns.verifDriver()
+	if d == nil || d.OnSpawn == nil {
+		return false, nil
+	}
+	origin, gid := verifOrigin()
+	pipeID := ""
+	if p != nil {
+		pipeID = GetPipeID(p)
+	}
+	pid, err := d.OnSpawn(origin, gid, pipeID)
+	if err != nil {
+		return true, err
+	}
+	// same registration as the real code (pm_server.go spawnProcess): blocks until the
+	// event loop receives it
+	zns.addChan <- workerState{pid: pid, state: WORKER_STATE_IDLE, cmd: nil}
+	return true, nil
+}
+
+func verifOrigin() (string, string) {
+	pcs := make([]uintptr, 16)
+	n := runtime.Callers(2, pcs)
+	frames := runtime.CallersFrames(pcs[:n])
+	origin := "other"
+	for {
+		f, more := frames.Next()
+		switch {
+		case strings.HasSuffix(f.Function, ".StartMaster"):
+			origin = "init"
+		case strings.HasSuffix(f.Function, ".maintainChildState.func1"):
+			origin = "update"
+		case strings.HasSuffix(f.Function, ".maintainChildState.func2"):
+			origin = "del"
+		}
+		if !more {
+			break
+		}
+	}
+	buf := make([]byte, 64)
+	buf = buf[:runtime.Stack(buf, false)]
+	// "goroutine 123 [running]:..."
+	gid := strings.TrimPrefix(string(buf), "goroutine ")
+	if i := strings.IndexByte(gid, ' '); i >= 0 {
+		gid = gid[:i]
+	}
+	return origin, gid
+}
